@@ -28,6 +28,8 @@ AtomDefs ==
    i123 |-> IntAtom(<<1, 2, 3>>, 10), i127 |-> IntAtom(<<1, 2, 7>>, 10), i200 |-> IntAtom(<<2, 0, 0>>, 10),
    i255 |-> IntAtom(<<15, 15>>, 16), i256 |-> IntAtom(<<1, 0, 0>>, 16), i1000 |-> IntAtom(<<1, 0, 0, 0>>, 10),
    h5a |-> IntAtom(<<5, 10, 5, 10>>, 16),
+   i4 |-> IntAtom(<<4>>, 10), p32p1 |-> IntAtom(<<1, 0, 0, 0, 0, 0, 0, 0, 1>>, 16), p32p3 |-> IntAtom(<<1, 0, 0, 0, 0, 0, 0, 0, 3>>, 16),
+   p32p97 |-> IntAtom(<<1, 0, 0, 0, 0, 0, 0, 6, 1>>, 16),
    p31 |-> IntAtom(<<8, 0, 0, 0, 0, 0, 0, 0>>, 16), p31m |-> IntAtom(<<7, 15, 15, 15, 15, 15, 15, 15>>, 16),
    p32 |-> IntAtom(<<1, 0, 0, 0, 0, 0, 0, 0, 0>>, 16), p32m |-> IntAtom(<<15, 15, 15, 15, 15, 15, 15, 15>>, 16),
    p62 |-> IntAtom(<<4, 0, 0, 0, 0, 0, 0, 0, 0, 0, 0, 0, 0, 0, 0, 0>>, 16),
@@ -91,7 +93,22 @@ TrFuns == {"SIN", "COS", "TAN", "COT", "ASIN", "ACOS", "ATAN", "ACOT", "EXP", "A
            "LD", "ASINH", "ACOSH", "ATANH", "ACOTH"}
 AnyArgs == {A("i1"), A("f15"), A("sa"), A("se"), NegT(A("i1")), Bin("+", A("i1"), A("f15")), Bin("+", A("sa"), A("sb")), Bin("=", A("f15"), A("f15"))}
 
+\* every integer parameter of every built-in function at the 64-bit boundary classes: 0, +-1, len-1, len, len+1 (of "abcd"),
+\* 2^31-1, 2^31, 2^32-1, 2^32, 2^32+1, 2^32+small, 2^63-1, -2^31, -2^32, -2^63
+BigIdx == {A("i0"), A("i1"), NegT(A("i1")), A("i3"), A("i4"), A("i5"), A("p31m"), A("p31"), A("p32m"), A("p32"), A("p32p1"), A("p32p3"),
+           A("p32p97"), A("mx"), NegT(A("p31")), NegT(A("p32")), MinIntT}
+BoundaryFunCases ==
+  {Fun("SUBSTR", <<s, i, n>>) : s \in {A("sabcd"), A("sa")}, i \in BigIdx, n \in {A("i0"), A("i1"), A("i3"), A("i7")}}
+  \cup {Fun("SUBSTR", <<A("sabcd"), i, n>>) : i \in {A("i0"), A("i1"), A("i3")}, n \in BigIdx}
+  \cup {Fun("CHARFROMSTR", <<s, i>>) : s \in {A("sabcd"), A("sa")}, i \in BigIdx}
+  \cup {Fun(f, <<x>>) : f \in {"TOUPPER", "TOLOWER", "BITCNT", "FIRSTBIT", "LASTBIT", "BITPOS", "ABS", "SGN", "EXPRTYPE"}, x \in BigIdx}
+  \* the right operand of the mirror operator and the shifts is such a parameter as well
+  \cup {Bin(o, A("h5a"), x) : o \in {"><", "<<", ">>"}, x \in BigIdx}
+  \* where a float is expected an integer argument is converted first
+  \cup {Fun(f, <<x>>) : f \in {"INT", "SQRT"}, x \in {A("i0"), A("i1"), A("i4"), A("p31"), A("p32"), NegT(A("i1")), NegT(A("p32"))}}
+
 FunCases ==
+  BoundaryFunCases \cup
   {Fun("SUBSTR", <<s, i, n>>) : s \in Strs, i \in Idx, n \in Idx}
   \cup {Fun("STRSTR", <<h, n>>) : h \in Strs2, n \in Strs2}
   \cup {Fun("CHARFROMSTR", <<s, i>>) : s \in Strs, i \in Idx}
@@ -130,6 +147,7 @@ CaseOf(md, tt) ==
         cs |-> Unparse(tt, FALSE, FALSE), csp |-> Unparse(tt, TRUE, FALSE), o |-> Observable(Ev(tt)), depth |-> Depth(tt),
         dev |-> Devs(tt, Atoms)]
 
+KeyOf(c) == IF c.k = "F" THEN c.f ELSE c.o
 \* ---- state machine --------------------------------------------------------------------------------------
 VARIABLES mode, sel, t
 vars == <<mode, sel, t>>
@@ -137,7 +155,7 @@ None == [k |-> "none"]
 Modes == IF MaxDepth > 0 THEN {"sim"} ELSE {"bin", "fun", "alias", "flat"}
 
 Init == \/ "bin" \in Modes /\ mode = "bin" /\ sel \in BinOpNames \cup UnOpNames /\ t = None
-        \/ "fun" \in Modes /\ mode = "fun" /\ sel \in {c.f : c \in FunCases} /\ t = None
+        \/ "fun" \in Modes /\ mode = "fun" /\ sel \in {KeyOf(c) : c \in FunCases} /\ t = None
         \/ "alias" \in Modes /\ mode = "alias" /\ sel \in {"!=", "=="} /\ t = None
         \/ "flat" \in Modes /\ mode = "flat" /\ sel \in BinOpNames /\ t = None
         \/ "sim" \in Modes /\ mode = "sim" /\ sel = "-" /\ t \in Operands
@@ -148,7 +166,7 @@ Next ==
      /\ t' \in IF sel \in BinOpNames THEN {Bin(sel, l, r) : l \in Operands, r \in Operands} ELSE {Un(sel, x) : x \in Operands}
      /\ UNCHANGED <<mode, sel>>
   \/ /\ mode = "fun" /\ t = None
-     /\ t' \in {c \in FunCases : c.f = sel}
+     /\ t' \in {c \in FunCases : KeyOf(c) = sel}
      /\ UNCHANGED <<mode, sel>>
   \/ /\ mode = "alias" /\ t = None
      /\ t' \in {Bin(sel, l, r) : l \in {A("i3"), A("f15"), A("sa")}, r \in {A("i3"), A("i5"), A("f15"), A("sb")}}
